@@ -772,7 +772,7 @@ class Discharger:
 
 
 def rule_ord1(ctx: Ctx) -> RuleResult:
-    rr = RuleResult("ORD-1", "no hash-/identity-ordered iteration reaches an order-sensitive use", floor=15)
+    rr = RuleResult("ORD-1", "no hash-/identity-ordered iteration reaches an order-sensitive use", floor=10)
     oa = OrdAnalysis(ctx)
     exps = find_exposures(ctx, oa)
     dis = Discharger(ctx, oa)
@@ -828,7 +828,7 @@ NDET_METHODS = {"glob", "iterdir", "rglob"}
 
 
 def rule_ndet1(ctx: Ctx) -> RuleResult:
-    rr = RuleResult("NDET-1", "nondeterministic primitives occur only where the property permits them", floor=5)
+    rr = RuleResult("NDET-1", "nondeterministic primitives occur only where the property permits them", floor=4)
     lib = ctx.lib_cone
     for f in sorted(ctx.prog.all_funcs(), key=lambda x: x.key):
         for n in walk_no_nested(f.node):
